@@ -113,7 +113,7 @@ def gen_case(rng, tier, idx):
         cfg["simulation"]["sessions"].append({"sessionName": 2, "iterationSteps": 10, "withOrderPlacement": True,
                                               "withOrderExecution": True, "withPrint": False, "maxNormalOrders": 2,
                                               "maxHifreqOrders": 1, "hifreqSubmitRate": 0.5})
-    individual = rng.random() < 0.4
+    individual = idx % 8 == 0 or rng.random() < 0.3
     if individual:
         # spot markets declared one by one, with their own parameters (one of them without volatility); agent
         # types list the individual markets. A 'near twin' of such a configuration (same values, roles rotated)
